@@ -12,7 +12,11 @@ Ltac gen_unfold :=
     lcs_j_next, lcs_i_init, lcs_i_cond, lcs_i_next, lcs_as_idx, lcs_bs_idx, lcs_match_dst,
     lcs_diag_idx_n, lcs_diag_idx, lcs_left_idx_n, lcs_up_idx_n, lcs_left_dst,
     lcs_left_idx, lcs_up_dst, lcs_up_idx, lcs_last_idx, lcs_out_idx, lcs_walk_cond,
-    lcs_ncalls_reverse in *.
+    lcs_ncalls_reverse, lcs_cell_i, lcs_cell_n in *.
+
+(* the third literal field designates the diagonal neighbour p[i-1] *)
+Lemma cell_pick_diag : forall i p c, lcs_cell_pick i p c = znth p (lcs_diag_idx i).
+Proof. intros. unfold lcs_cell_pick. reflexivity. Qed.
 
 (* all the optimality proof needs of the tie rule: it picks a neighbour that is not the shorter
    one (holds for `>=` and equally for `>`) *)
@@ -129,7 +133,7 @@ Section LcsProofs.
                    /\ RowGood (S j) c'.
     Proof.
       intros p j Hj [Hpl Hp]. induction fuel as [|fuel IH]; intros k c Hk Hf Hcl Hc; [lia|].
-      cbn [lcs_fill]. gen_unfold. unfold zlen.
+      cbn [lcs_fill]. rewrite cell_pick_diag. gen_unfold. unfold zlen.
       destruct (Z.leb_spec (Z.of_nat (S k)) (Z.of_nat (length xs))) as [Ecol|Ecol].
       2:{ exists c; split; [reflexivity|]. split; [exact Hcl|].
           intros m cl Hm. apply Hc; auto.
